@@ -19,7 +19,7 @@ SPEC = {
             "catch handler of an unrelated exception / destructor on normal scope exit / destructor during stack unwinding "
             "of an unrelated exception (failure caught inside the destructor) / second thread started from an unwinding "
             "destructor; verdict, file, line, message, what() must equal the direct context's. errno is poisoned before "
-            "every call. Call sites on lines 999..2147483000 (#line) under a digit-grouping global locale: what() must contain file, message and the plain decimal line. Operands with side effects (counter call, x++, --x, counting functor, invoked lambda, StringReader::get_u8) as first/second operand of every macro: evaluated exactly once, verdict from that evaluation. expect/expect_msg with 55 non-bool predicates (fractions, denormals, NaN, __int128 and 64-bit values with zero low bits, pointers, enums, implicit-bool class). Second TU (optional build): expect_raises with E in {plain struct, derived plain struct, std::string, int, type with ambiguous std::exception base, virtual-base and diamond types, exception, runtime_error, logic_error} x fn in {returns, throws each of ten exotic/standard types}, is-a from an explicit table cross-checked against real catch clauses. distinct_nontrivial = distinct (relation, operand type, order shape, expected "
+            "every call. Call sites on lines 999..2147483000 (#line) under a digit-grouping global locale: what() must contain file, message and the plain decimal line. Operands with side effects (counter call, x++, --x, counting functor, invoked lambda, StringReader::get_u8) as first/second operand of every macro: evaluated exactly once, verdict from that evaluation. expect/expect_msg with 55 non-bool predicates (fractions, denormals, NaN, __int128 and 64-bit values with zero low bits, pointers, enums, implicit-bool class). Carried values (TU c19_carry, optional build): runtime messages of 0, 1, 2, 2^k-1, 2^k, 2^k+1 (k = 4..16), 2^20, 2^20+1 characters in four byte patterns (exact compare, exactly sized heap block); stringified messages of exactly those lengths for every relation macro and expect() through preprocessor-generated operands (integer sums up to 2^10, string literals above; long operand first / second); file names of those lengths with directory components and ten names of unusual shape, line numbers 1, 9, 10, 99, 100, 255, 256, 32767, 32768, 65535, 65536, 2^31-1 (#line), each row holding all eight macros and five failure paths of expect_raises; every failing call observed in 13 ways (caught object, copy, copy outliving the original, move, assignment, logic_error& / exception& + dynamic_cast, rethrow, exception_ptr here and from an exited thread, nested, make_exception_ptr, sliced): msg / file compared as full C strings, line as a number, what() must contain file, decimal line and message. Second TU (optional build): expect_raises with E in {plain struct, derived plain struct, std::string, int, type with ambiguous std::exception base, virtual-base and diamond types, exception, runtime_error, logic_error} x fn in {returns, throws each of ten exotic/standard types}, is-a from an explicit table cross-checked against real catch clauses. distinct_nontrivial = distinct (relation, operand type, order shape, expected "
             "outcome) and (E, behaviour of fn, expected outcome) cells observed.",
     "level_text": "The input space of the statement is finite once the operand sets and the exception hierarchy are fixed, and "
                   "it is enumerated completely: every relation x operand-pair cell and all 130 expect_raises cells are "
@@ -45,9 +45,15 @@ SPEC = {
         # pointer-kind predicates of expect()/expect_msg(): same reason, own optional stage
         {"name": "c19_exotic_ptrpred", "sources": ["c19_exotic.cc"], "variant": "asan", "shards": (2, 4), "timeout": (600, 3600),
          "extra_cxx": ["-O0", "-DC19_EXOTIC_PTRPRED", "-Wno-unused-function"], "optional_build": True},
+        # what the failure CARRIES over length / magnitude ladders (message 0 .. 2^16+1 and 1 MiB, file name 2^4-1 .. 2^16+1,
+        # line 1 .. 2^31-1) and through the life of the exception object (copy, move, assign, exception_ptr, nested, base-class
+        # references).  Reads expectation_failed::msg / ::file through an overload set, so it also builds if those become
+        # std::string; optional_build for any other change of the class layout.
+        {"name": "c19_carry", "variant": "asan", "shards": (8, 16), "timeout": (600, 3600), "extra_cxx": ["-O0"],
+         "optional_build": True},
     ],
     "min_evaluations": 50000,
-    "min_classes": {"quick": 500, "thorough": 500},
+    "min_classes": {"quick": 700, "thorough": 700},
     "required_classes": [
         "rel:eq:int:*", "rel:ge:int:equal:holds", "rel:ge:int:less:fails", "rel:gt:int:equal:fails", "rel:le:double:unordered:fails",
         "rel:ne:double:unordered:holds", "rel:lt:string:less:holds", "rel:eq:string:equal:holds", "rel:le:uint64:greater:fails",
@@ -81,6 +87,26 @@ SPEC = {
         "raises-exotic:exception:either", "raises-exotic:virtual-std-base:must-pass", "raises-exotic:diamond-virtual-std-base:must-pass",
         "raises-exotic:int:must-pass", "raises-exotic:int:must-fail", "raises-exotic-fn:throws-ambiguous-std-base",
         "raises-exotic-fn:throws-const-char-ptr", "raises-exotic-fn:returns", "ctx-exotic:dtor-unwinding:must-pass",
+        # c19_carry: ladders of what the failure carries
+        "carry:rtmsg:len=0", "carry:rtmsg:len=2^4-1", "carry:rtmsg:len=2^8-1", "carry:rtmsg:len=2^8", "carry:rtmsg:len=2^8+1", "carry:rtmsg:len=2^12",
+        "carry:rtmsg:len=2^16-1", "carry:rtmsg:len=2^16", "carry:rtmsg:len=2^16+1", "carry:rtmsg:len=2^20", "carry:rtmsg:len=2^20+1",
+        "carry:rtmsg:pattern:printf-directives", "carry:rtmsg:pattern:high-bytes", "carry:rtmsg:pattern:control-chars",
+        "carry:strmsg:expect_eq:2^4:on-boundary", "carry:strmsg:expect_eq:2^8:on-boundary", "carry:strmsg:expect_eq:2^16:on-boundary",
+        "carry:strmsg:expect_ne:2^8:on-boundary", "carry:strmsg:expect_gt:2^9:on-boundary", "carry:strmsg:expect_ge:2^8:on-boundary",
+        "carry:strmsg:expect_ge:2^16:on-boundary", "carry:strmsg:expect_lt:2^10:on-boundary", "carry:strmsg:expect_le:2^8:on-boundary",
+        "carry:strmsg:expect_le:2^15:on-boundary", "carry:strmsg:expect:2^8:on-boundary", "carry:strmsg:expect:2^16:on-boundary",
+        "carry:strmsg:long-first", "carry:strmsg:long-second", "carry:strmsg:long-predicate",
+        "carry:file:len=2^4:on-boundary", "carry:file:len=2^8:on-boundary", "carry:file:len=2^12:on-boundary", "carry:file:len=2^16:on-boundary",
+        "carry:file:with-directories", "carry:file:name_printf_directives", "carry:file:name_empty", "carry:file:name_trailing_slash",
+        "carry:file:name_1024_components", "carry:line:1", "carry:line:255", "carry:line:256", "carry:line:32768", "carry:line:65535", "carry:line:65536",
+        "carry:line:2147483647", "carry:site:expect_eq:file>=256", "carry:site:expect_le:line>=65536", "carry:site:expect:file>=256",
+        "carry:site:expect_msg:file>=256", "carry:site:expect_raises:returns:file>=256", "carry:site:expect_raises:wrong-std-type:file>=256",
+        "carry:site:expect_raises:non-class-object:line>=65536", "carry:site:expect_raises-exception:returns:file>=256",
+        "carry:site:expect_raises-exception:non-std-class:file>=256", "carry:site:expect_raises:passes",
+        "carry:history:copy", "carry:history:copy-outlives-original", "carry:history:moved", "carry:history:assigned",
+        "carry:history:caught-by-logic_error-ref", "carry:history:caught-by-exception-ref", "carry:history:rethrown", "carry:history:exception_ptr",
+        "carry:history:exception_ptr-other-thread", "carry:history:nested", "carry:history:make_exception_ptr", "carry:history:sliced-to-logic_error",
+        "carry:ctx:dtor-unwinding", "carry:ctx:thread-during-unwinding",
     ],
     "exhaustive": {"quick": True, "thorough": True},
     "exhaustive_note": "all relation x operand-pair cells of the stated boundary sets and all 130 (E, behaviour) cells of the "
@@ -90,5 +116,10 @@ SPEC = {
         "outside the statement); file, line and what() are",
         "the exception hierarchy is the ten listed types; is-a is an explicit parent table cross-checked at start-up "
         "against real catch clauses",
+        "carried values (c19_carry): the message text of the relation macros is demanded layout-free (both stringified operand "
+        "texts, left one first); exact equality only for expect_msg; what() must contain file, decimal line and message "
+        "anywhere; the ladder call sites sit exactly on the 2^k boundaries only for today's message layout (classes "
+        "carry:strmsg:*:on-boundary are named after measured lengths, so a layout change makes the run inconclusive, not wrong); "
+        "copy / move / assignment of expectation_failed are exercised only if the class offers them",
     ],
 }
